@@ -235,10 +235,10 @@ def is_err(vs, kind=None):
     return False
 
 
-def _run_lines(exe, lines, timeout, shards=1):
+def _run_lines(exe, lines, timeout, shards=1, min_shard=2000):
     if not lines:
         return []
-    if shards > 1 and len(lines) > 2000:
+    if shards > 1 and len(lines) > min_shard:
         n = (len(lines) + shards - 1) // shards
         parts = [lines[i:i + n] for i in range(0, len(lines), n)]
         procs = []
@@ -269,12 +269,12 @@ def _run_lines(exe, lines, timeout, shards=1):
     return out
 
 
-def run_go(lines, timeout=1800, shards=8):
-    return _run_lines(os.path.join(BIN, "vharness"), lines, timeout, shards)
+def run_go(lines, timeout=1800, shards=8, min_shard=2000):
+    return _run_lines(os.path.join(BIN, "vharness"), lines, timeout, shards, min_shard)
 
 
-def run_oracle(lines, timeout=1800, shards=8):
-    return _run_lines(os.path.join(BIN, "oracle"), lines, timeout, shards)
+def run_oracle(lines, timeout=1800, shards=8, min_shard=2000):
+    return _run_lines(os.path.join(BIN, "oracle"), lines, timeout, shards, min_shard)
 
 
 def coq_eval(lines, timeout=900):
